@@ -109,7 +109,7 @@ def run(prog, rep, tier):
                 return ME.Point(p, {C: ME.rand_spd(rnd, p), MU: ME.rand_vec(rnd, p)}, {Py: 2, PXs: [3, 0, 4, 1, 2] if full else [4, 1, 3]}, mnf=M)
             decide_formula(rep, "FORMULA.coefs", fwhere(f, st.node, construct=label), got, ref, label, make_point)
     from .common import hidden_state
-    hidden_state(rep, "HISTORY.regress", fwhere(f), [r_.value for r_ in S.select("return", qname=f.qname)] + [s_.value for s_ in stores], {"mean", "covariance", "p"})
+    hidden_state(rep, "HISTORY.regress", fwhere(f), [r_.value for r_ in S.select("return", qname=f.qname)] + [s_.value for s_ in stores], {"mean", "covariance", "p"}, f=f)
     rets = S.select("return", qname=f.qname)
     if len(rets) != 1 or rets[0].value[0] != "tuple" or len(rets[0].value[1]) != 2:
         raise Inconclusive("regress: expected a single `return (coefs, intercept)`", f.node)
